@@ -375,24 +375,38 @@ def check(ctx):
     # ------------------------------------------------------------------ R5
     ctx.rule("R5", "hedge probabilities: a*p + b with p normalised, a + n*b = 1, b = gamma, a >= 0; inverse-CDF choice", floor=3, policy="degrade")
     try:
-        stmts = [s for s in hcall.node.body if isinstance(s, ast.Assign) and canon(s.targets[0]) == "self.prob"]
+        pstmts = [s for s in hcall.node.body if isinstance(s, ast.Assign) and canon(s.targets[0]) == "self.prob"]
+        # the straight-line prefix that computes the probabilities: the weights may first sit in a local
+        stmts = []
+        for s in hcall.node.body:
+            if isinstance(s, ast.Assign) and len(s.targets) == 1 and (isinstance(s.targets[0], ast.Name) or canon(s.targets[0]) == "self.prob"):
+                stmts.append(s)
+            if pstmts and s is pstmts[-1]:
+                break
         tr = Translator(positive=["self.gamma", "self.n_funs"])
-        tr.run(stmts)
+        try:
+            tr.run(stmts)
+        except Untranslatable:
+            tr = Translator(positive=["self.gamma", "self.n_funs"])
+            stmts = pstmts
+            tr.run(stmts)
         prob = tr.env.get("self.prob")
         if prob is None or len(stmts) < 2:
             ctx.undecided("self.prob assignments not found as straight-line statements")
         else:
             gamma, n = tr.sym("self.gamma"), tr.sym("self.n_funs")
-            # e and its normalisation
-            first = tr_first = Translator(positive=["self.gamma", "self.n_funs"])
-            tr_first.run(stmts[:1])
-            e = tr_first.env["self.prob"]
+            # e and its normalisation: every sum in the final expression is over one vector e, and e occurs only as e/sum(e)
             sums = [a for a in sp.preorder_traversal(prob) if isinstance(a, sp.Function) and a.func.__name__ == "sum"]
+            e = sums[0].args[0] if sums else None
+            P = sp.Symbol("P", positive=True)
             ok_norm = bool(sums) and all(is_zero(s_.args[0] - e) for s_ in sums)
-            ctx.check(ok_norm, hcall, stmts[1], "p = e / sum(e) with the same e", "the hedge weights are normalised by the sum of a different vector: the probabilities do not sum to 1", construct="hedge normalisation")
+            if ok_norm:
+                rest = sp.expand(prob.subs(e / sums[0], P))
+                ok_norm = not rest.has(sums[0]) and not rest.has(e)
+            ctx.check(ok_norm, hcall, pstmts[min(1, len(pstmts) - 1)], "p = e / sum(e) with the same e", "the hedge weights are normalised by the sum of a different vector: the probabilities do not sum to 1", construct="hedge normalisation")
+            stmts = pstmts
             if sums:
                 p = e / sums[0]
-                P = sp.Symbol("P", positive=True)
                 affine = sp.expand(prob.subs(p, P))
                 if not affine.has(P):
                     affine = sp.expand(sp.simplify(prob / p) * P) if False else affine
